@@ -4,7 +4,9 @@
 From Coq Require Import Reals.
 From Coquelicot Require Import Coquelicot.
 From Cheetah Require Import Base.Mat Optics.Maps Optics.Sympl Optics.SymplProofs Bmadx.SymplX
-  Optics.UndFixed Optics.UndFixedSympl.
+  Optics.UndFixed Optics.UndFixedSympl
+  Bmadx.DriftX Bmadx.Tdc Bmadx.QuadX Bmadx.QuadXProofs Bmadx.BendX Bmadx.BendXJac Bmadx.BendXFlow
+  Bmadx.SymplXJac Bmadx.SymplXQuad Bmadx.SymplXBend.
 Open Scope R_scope.
 
 (** what "symplectic" means here: M^T S6 M = S6 on the 6x6 linear part, with
@@ -200,6 +202,125 @@ Theorem C03_emit_undulator_fixed : forall L E Sg, cov7 Sg -> c0 (c1 Sg) = c1 (c0
   emit_x2 (rcong (und_map_fixed L E) Sg) = emit_x2 Sg /\ emit_y2 (rcong (und_map_fixed L E) Sg) = emit_y2 Sg.
 Proof. exact emit_undulator_fixed. Qed.
 
+(** ---------------------------------------------------------------------------------------------------------------------
+    Non-linear Bmad-X maps, Jacobian at EVERY phase-space point (models: Bmadx/QuadX.v, Bmadx/BendX.v of C07; proofs:
+    Bmadx/SymplXJac.v, SymplXQuad.v, SymplXBend.v).  Bmad coordinates (x,px,y,py,z,pz), form S6plus (all pairs positive). *)
+(* what "J is the Jacobian of F at q" means: F has a derivative along EVERY direction v at q, equal to J v
+   (the six partial derivatives are the cases v = unit vectors) *)
+Theorem C03_jacobian_means : forall (F : bpart -> bpart) (q : bpart) (J : M7 R),
+  has_jac F q J <->
+  forall v : bpart,
+    let line := fun t => mkb (bx q + t * bx v) (bpx q + t * bpx v) (by_ q + t * by_ v) (bpy q + t * bpy v) (bz q + t * bz v) (bpz q + t * bpz v) in
+    let Jv := fun r : V7 R => c0 r * bx v + c1 r * bpx v + c2 r * by_ v + c3 r * bpy v + c4 r * bz v + c5 r * bpz v in
+    is_derive (fun t => bx (F (line t))) 0 (Jv (c0 J)) /\ is_derive (fun t => bpx (F (line t))) 0 (Jv (c1 J)) /\
+    is_derive (fun t => by_ (F (line t))) 0 (Jv (c2 J)) /\ is_derive (fun t => bpy (F (line t))) 0 (Jv (c3 J)) /\
+    is_derive (fun t => bz (F (line t))) 0 (Jv (c4 J)) /\ is_derive (fun t => bpz (F (line t))) 0 (Jv (c5 J)).
+Proof. exact (fun F q J => iff_refl _). Qed.
+
+(** Quadrupole._track_bmadx, one step with eps := 0 (k = k1/(1+pz), r = 1+pz, C = Cf k l, S = Sf k l; -k for the y plane) *)
+(* the Jacobian matrix, written out: blocks [[C, S/r],[-k S r, C]]; pz column = d(block)/dpz applied to the coordinates;
+   z row = gradient of the code's quadratic form c1 u^2 + c2 u pu + c3 pu^2 (c1 = -k(l - C S)/4, c2 = k S^2/(2r), c3 = -(C S + l)/(4 r^2)) *)
+Theorem C03_quadx_jac_written_out : forall k1 l q dl,
+  let r := 1 + bpz q in
+  let blk := fun (kap u pu : R) =>
+    let k := kap / r in let C := Cf k l in let S := Sf k l in
+    let dC := k * l * S / (2 * r) in let dS := - (l * C - S) / (2 * r) in
+    (row C (S / r) 0 0 0 (u * dC + pu * (dS / r - S / (r * r))) 0,
+     row (- k * S * r) C 0 0 0 (u * (- k * r * dS) + pu * dC) 0,
+     (2 * (- k * (l - C * S) / 4) * u + k * (S * S) / (2 * r) * pu,
+      k * (S * S) / (2 * r) * u + 2 * (- (C * S + l) / (4 * (r * r))) * pu)) in
+  let X := blk k1 (bx q) (bpx q) in let Y := blk (- k1) (by_ q) (bpy q) in
+  c0 (quadx_jac k1 l q dl) = fst (fst X) /\ c1 (quadx_jac k1 l q dl) = snd (fst X) /\
+  (c2 (c2 (quadx_jac k1 l q dl)), c3 (c2 (quadx_jac k1 l q dl)), c5 (c2 (quadx_jac k1 l q dl))) = (c0 (fst (fst Y)), c1 (fst (fst Y)), c5 (fst (fst Y))) /\
+  (c2 (c3 (quadx_jac k1 l q dl)), c3 (c3 (quadx_jac k1 l q dl)), c5 (c3 (quadx_jac k1 l q dl))) = (c0 (snd (fst Y)), c1 (snd (fst Y)), c5 (snd (fst Y))) /\
+  c0 (c4 (quadx_jac k1 l q dl)) = fst (snd X) /\ c1 (c4 (quadx_jac k1 l q dl)) = snd (snd X) /\
+  c2 (c4 (quadx_jac k1 l q dl)) = fst (snd Y) /\ c3 (c4 (quadx_jac k1 l q dl)) = snd (snd Y) /\ c4 (c4 (quadx_jac k1 l q dl)) = 1 /\
+  c5 (quadx_jac k1 l q dl) = row 0 0 0 0 0 1 0.
+Proof. exact (fun k1 l q dl => conj eq_refl (conj eq_refl (conj eq_refl (conj eq_refl (conj eq_refl (conj eq_refl (conj eq_refl (conj eq_refl (conj eq_refl eq_refl))))))))). Qed.
+(* it IS the derivative of the coded step, at every point with 1+pz > 0, wherever low_energy_z_correction is differentiable in pz
+   (its derivative dl only enters the entry dz'/dpz, which symplecticity does not constrain); and it is symplectic: the z row is what the
+   pz-dependence of the blocks requires (generating-function condition, SymplXQuad.pl_zu_ok / pl_zpu_ok, uses C^2 + k S^2 = 1) *)
+Theorem C03_quadx_step_symplectic : forall Lf k1 l p0c m q dl, Lf <> 0 -> k1 <> 0 -> 0 < 1 + bpz q ->
+  is_derive (fun p => lez p p0c m l) (bpz q) dl ->
+  has_jac (quadx_step 0 Lf k1 l p0c m) q (quadx_jac k1 l q dl) /\
+  rmmul (transpose (lin6 (quadx_jac k1 l q dl))) (rmmul S6plus (lin6 (quadx_jac k1 l q dl))) = S6plus.
+Proof. exact (fun Lf k1 l p0c m q dl H1 H2 H3 H4 => conj (quadx_step_has_jac Lf k1 l p0c m q dl H1 H2 H3 H4) (quadx_jac_sympl k1 l q dl H3)). Qed.
+(* the element: offset_particle_set ; num_steps steps of length L/num_steps ; offset_particle_unset *)
+Theorem C03_quadx_element_symplectic : forall n L k1 ox oy tilt p0c m, L <> 0 -> k1 <> 0 -> n <> O -> forall q dl,
+  0 < 1 + bpz q -> is_derive (fun p => lez p p0c m L) (bpz q) dl ->
+  let J := rmmul (rmmul (mis_exit ox oy) (rot (- tilt))) (rmmul (quadx_jac k1 L (off_set ox oy tilt q) dl) (rmmul (rot tilt) (mis_entry ox oy))) in
+  has_jac (quadx_bmad 0 n L k1 ox oy tilt p0c m) q J /\ rmmul (transpose (lin6 J)) (rmmul S6plus (lin6 J)) = S6plus.
+Proof. exact (fun n L k1 ox oy tilt p0c m H1 H2 H3 q dl H4 H5 => conj (quadx_bmad_has_jac n L k1 ox oy tilt p0c m H1 H2 H3 q dl H4 H5) (quadx_bmad_sympl L k1 ox oy tilt q dl H4)). Qed.
+(* PARTIAL for the coded eps = 2^-52: the (x,px) entry of J^T S J is the block determinant 1 -+ eps sx^2 *)
+Theorem C03_quadx_eps_defect_partial : forall eps kc len relp e11 e12 e21 e22 b0 b1 b2 b3 d, 0 <= eps -> kc <> 0 \/ 0 < eps -> relp <> 0 ->
+  let f := le0 kc in
+  let M := fib (qc_a11 f eps kc len) (qc_a12 f eps kc len relp) (qc_a21 f eps kc len relp) (qc_a22 f eps kc len) e11 e12 e21 e22 b0 b1 b2 b3 d in
+  c1 (c0 (rmmul (transpose (lin6 M)) (rmmul S6plus (lin6 M)))) = 1 - (if Rle_dec kc 0 then eps else - eps) * (qc_sx f eps kc len)².
+Proof. exact quadx_eps_defect_partial. Qed.
+
+(** Dipole._track_bmadx: the body is the exact sector map; Jacobian = shear(-F(px')) * Rmat * shear(F(px)) *)
+Theorem C03_sect_jac_written_out : forall g th dzc q,
+  let F := fun (sg P W phi : R) =>
+    let py := bpy q in let pz := bpz q in let N2 := (1 + pz) ^ 2 - py ^ 2 in
+    shear (sg * (P / (g * W))) (sg * (py / (g * W))) (sg * (- (1 + pz) / (g * W)))
+          (sg * (phi / g + py * py * P / (g * N2 * W))) (sg * (- py * P * (1 + pz) / (g * N2 * W)))
+          (sg * (- phi / g + (1 + pz) * (1 + pz) * P / (g * N2 * W))) in
+  let P' := sect_px g th (bx q) (bpx q) (bpy q) (bpz q) in
+  sect_jac g th dzc q =
+  rmmul (F (-1) P' (sect_w P' (bpy q) (bpz q)) (bb_phi1 P' (bpy q) (bpz q)))
+        (rmmul (mk7 (row (cos th) (sin th / g) 0 0 0 0 0) (row (- sin th * g) (cos th) 0 0 0 0 0)
+                    (row 0 0 1 (th / g) 0 0 0) (row 0 0 0 1 0 0 0) (row 0 0 0 0 1 (dzc - th / g) 0) (row 0 0 0 0 0 1 0) (row 0 0 0 0 0 0 1))
+               (F 1 (bpx q) (sect_w (bpx q) (bpy q) (bpz q)) (bb_phi1 (bpx q) (bpy q) (bpz q)))).
+Proof. exact (fun g th dzc q => eq_refl). Qed.
+(* the exact sector map (x', px' of BendXJac; y', z' of BendXFlow.body_yz_closed), all six coordinates, every direction, every point of
+   the open region g <> 0, px_norm^2 > 0, |px| < px_norm, |px'| < px_norm; and its Jacobian is symplectic *)
+Theorem C03_sector_map_symplectic : forall g th zc dzc q, g <> 0 ->
+  0 < (1 + bpz q) ^ 2 - bpy q ^ 2 -> 0 < (1 + bpz q) ^ 2 - bpy q ^ 2 - bpx q ^ 2 ->
+  0 < (1 + bpz q) ^ 2 - bpy q ^ 2 - (sect_px g th (bx q) (bpx q) (bpy q) (bpz q)) ^ 2 ->
+  is_derive zc (bpz q) dzc ->
+  has_jac (fun q => let x := bx q in let px := bpx q in let y := by_ q in let py := bpy q in let z := bz q in let pz := bpz q in
+                    let turn := th + bb_phi1 px py pz - bb_phi1 (sect_px g th x px py pz) py pz in
+                    mkb ((sect_w (sect_px g th x px py pz) py pz - (cos th * (sect_w px py pz - (1 + g * x)) - sin th * px) - 1) / g)
+                        (sect_px g th x px py pz) (y + py * turn / g) py (z + zc pz - (1 + pz) * turn / g) pz)
+          q (sect_jac g th dzc q) /\
+  rmmul (transpose (lin6 (sect_jac g th dzc q))) (rmmul S6plus (lin6 (sect_jac g th dzc q))) = S6plus.
+Proof. exact (fun g th zc dzc q H1 H2 H3 H4 H5 => conj (nice_map_has_jac g th zc dzc q H1 H2 H3 H4 H5) (sect_jac_sympl g th dzc q H1)). Qed.
+(* the element: offset_particle_set(tilt) ; entrance fringe kick ; coded body ; exit fringe kick ; offset_particle_unset, at every point whose
+   image q1 at the body entrance has (along every line) a neighbourhood in which the code is defined (bb_defined) and arctan2 does not
+   wrap (bb_nowrap; violated only for bend angles below -pi, finding F70).  entr_mat / exit_mat: the fringe kick matrix
+   kick (g tan e) 0 0 (hy) 0 0 (SymplXBend.fringe_matrix), or the identity when the fringe is switched off *)
+Theorem C03_bendx_element_symplectic : forall fen fex b p0c m, bd_L b <> 0 -> bd_ang b <> 0 -> forall q dzc,
+  let q1 := bendx_entrance fen b (off_set 0 0 (bd_tilt b) q) in
+  (forall v, locally 0 (fun t => bb_defined (bd_L b) (bd_ang b) (bline q1 v t) /\ bb_nowrap (bd_L b) (bd_ang b) (bline q1 v t))) ->
+  0 < (1 + bpz q1) ^ 2 - bpy q1 ^ 2 - (bpx (bendx_body (bd_L b) (bd_ang b) p0c m q1)) ^ 2 ->
+  is_derive (fun p => bb_beta p p0c m * bd_L b / bb_beta0 p0c m) (bpz q1) dzc ->
+  let J := rmmul (rmmul (rmmul (mis_exit 0 0) (rot (- bd_tilt b))) (exit_mat fex b))
+                 (rmmul (sect_jac (bb_g (bd_L b) (bd_ang b)) (bd_ang b) dzc q1) (rmmul (entr_mat fen b) (rmmul (rot (bd_tilt b)) (mis_entry 0 0)))) in
+  has_jac (bendx_bmad fen fex b p0c m) q J /\ rmmul (transpose (lin6 J)) (rmmul S6plus (lin6 J)) = S6plus.
+Proof. exact (fun fen fex b p0c m H1 H2 q dzc H3 H4 H5 => conj (bendx_bmad_has_jac fen fex b p0c m H1 H2 q dzc H3 H4 H5) (bendx_bmad_sympl fen fex b H1 H2 q dzc)). Qed.
+(* in Cheetah coordinates: any Jc tied to the Bmad Jacobian Jb by the chain rule N_out Jc = Jb N_in (N = Jacobian of (tau,delta) -> (z,pz),
+   longitudinal block [[-beta, *],[0, 1/beta]]) is symplectic w.r.t. cheetah's S6 = diag(J2,J2,-J2) *)
+Theorem C03_bmadx_cheetah_symplectic : forall Jb Jc bin sin_ bout sout, bin <> 0 -> bout <> 0 -> symplectic_wrt S6plus Jb ->
+  rmmul (lin6 (long_change (- bout) sout 0 (1 / bout))) (lin6 Jc) = rmmul (lin6 Jb) (lin6 (long_change (- bin) sin_ 0 (1 / bin))) ->
+  symplectic Jc.
+Proof. exact bmadx_cheetah_sympl. Qed.
+
+(* non-vacuity: the hypotheses of the two Jacobian theorems are met -- quadrupole: every transverse position and momentum at pz = 0 (the series
+   branch of low_energy_z_correction), every k1 <> 0, step length, energy; dipole body: the design orbit, every curvature and angle *)
+Example C03_quadx_nonvacuous : forall Lf k1 l p0c m x px y py z, 0 < m -> 0 < p0c -> Lf <> 0 -> k1 <> 0 ->
+  exists dl, has_jac (quadx_step 0 Lf k1 l p0c m) (mkb x px y py z 0) (quadx_jac k1 l (mkb x px y py z 0) dl)
+             /\ symplectic_wrt S6plus (quadx_jac k1 l (mkb x px y py z 0) dl).
+Proof. exact quadx_nonvacuous. Qed.
+(* ... and at every other pz > -1 off the branch threshold of low_energy_z_correction *)
+Theorem C03_quadx_step_symplectic_everywhere : forall Lf k1 l p0c m q, 0 < m -> 0 < p0c -> Lf <> 0 -> k1 <> 0 -> 0 < 1 + bpz q ->
+  m * (p0c / sqrt (p0c² + m²) * bpz q)² <> 3e-7 * sqrt (p0c² + m²) ->
+  exists dl, has_jac (quadx_step 0 Lf k1 l p0c m) q (quadx_jac k1 l q dl) /\ symplectic_wrt S6plus (quadx_jac k1 l q dl).
+Proof. exact quadx_step_sympl_everywhere. Qed.
+Example C03_sector_nonvacuous : forall g th L p0c m y z, g <> 0 -> 0 < m -> 0 < p0c ->
+  exists dzc, has_jac (nice_map g th (fun p => bb_beta p p0c m * L / bb_beta0 p0c m)) (mkb 0 0 y 0 z 0) (sect_jac g th dzc (mkb 0 0 y 0 z 0))
+              /\ symplectic_wrt S6plus (sect_jac g th dzc (mkb 0 0 y 0 z 0)).
+Proof. exact sect_nonvacuous. Qed.
+
 Print Assumptions C03_symplectic_means.
 Print Assumptions C03_form.
 Print Assumptions C03_affine_means.
@@ -255,3 +376,15 @@ Print Assumptions C03_undulator_fixed_is_drift.
 Print Assumptions C03_sympl_undulator_fixed.
 Print Assumptions C03_seventh_row_undulator_fixed.
 Print Assumptions C03_emit_undulator_fixed.
+Print Assumptions C03_jacobian_means.
+Print Assumptions C03_quadx_jac_written_out.
+Print Assumptions C03_quadx_step_symplectic.
+Print Assumptions C03_quadx_element_symplectic.
+Print Assumptions C03_quadx_eps_defect_partial.
+Print Assumptions C03_sect_jac_written_out.
+Print Assumptions C03_sector_map_symplectic.
+Print Assumptions C03_bendx_element_symplectic.
+Print Assumptions C03_bmadx_cheetah_symplectic.
+Print Assumptions C03_quadx_nonvacuous.
+Print Assumptions C03_quadx_step_symplectic_everywhere.
+Print Assumptions C03_sector_nonvacuous.
